@@ -4,9 +4,24 @@ From Coq Require Import List Arith NArith Bool Lia.
 Import ListNotations.
 Require Import MRB.Base.Ring MRB.Base.ListAux MRB.Model.Types MRB.Model.Seq MRB.Spec.Pipe.
 Require Import MRB.Proofs.Rel MRB.Proofs.TapeFacts MRB.Proofs.Refine MRB.Proofs.SpecFacts MRB.Props.Examples.
+Require MRB.Conc.RAx MRB.Conc.RAxproof.
 
 Theorem C11_reset :
   forall (m : Seq.mstate) (a : Pipe.pipe) (k : Types.stage), Rel.Rel m a -> Pipe.a_attached k a = true -> k <> Types.P -> let a' := fst (Pipe.sstep a (Types.Reset k)) in let m' := fst (Seq.step m (Types.Reset k)) in Rel.Rel m' a' /\ Pipe.a_avail k a' = 0 /\ Seq.ca (Seq.it_of k m') = 0 /\ (forall n : nat, 0 < n -> fst (snd (Seq.step m' (Types.GetExact k n))) = Types.ONone) /\ Types.tget k (Pipe.lpos a') = Pipe.a_succ k a /\ Types.tget k (Pipe.ppos a') = Pipe.a_succ k a /\ (forall j : Types.stage, j <> k -> Types.tget j (Pipe.lpos a') = Types.tget j (Pipe.lpos a) /\ Pipe.a_succ j a' >= Pipe.a_succ j a).
 Proof. exact SpecFacts.C11_reset. Qed.
 Print Assumptions C11_reset.
 
+
+(** under concurrency (release/acquire machine with resets, Conc/RAx.v): a reset while the producer keeps writing
+    is race free, and never moves the consumer backwards *)
+Theorem C11_reset_concurrent_race_free :
+  forall len script, 0 < len -> MRB.Conc.RAx.race (MRB.Conc.RAx.exec_x len (MRB.Conc.RAx.init_x len) script) = false.
+Proof. exact MRB.Conc.RAxproof.spsc_x_race_free. Qed.
+Print Assumptions C11_reset_concurrent_race_free.
+
+Theorem C11_reset_never_backwards :
+  forall len s1 s2, 0 < len ->
+  MRB.Conc.RAx.pos (MRB.Conc.RAx.C (MRB.Conc.RAx.exec_x len (MRB.Conc.RAx.init_x len) s1)) <=
+  MRB.Conc.RAx.pos (MRB.Conc.RAx.C (MRB.Conc.RAx.exec_x len (MRB.Conc.RAx.init_x len) (s1 ++ s2))).
+Proof. exact MRB.Conc.RAxproof.consumer_never_goes_back. Qed.
+Print Assumptions C11_reset_never_backwards.
